@@ -26,7 +26,7 @@ Silent == UNCHANGED <<tid, l>>
 Same == UNCHANGED vars
 
 ScnOf(h) == [k |-> h.k, kind |-> h.kind, max |-> h.max, size |-> h.size, via |-> h.via, lsize |-> h.lsize,
-             lim |-> h.lim, lim2 |-> h.lim2,
+             lim |-> h.lim, lim2 |-> h.lim2, calls |-> [i \in DOMAIN h.calls |-> Call(h.calls[i].mm, h.calls[i].opt)],
              members |-> [i \in DOMAIN h.members |-> Mem(h.members[i].size, h.members[i].folder, h.members[i].name,
                                                          h.members[i].type, h.members[i].target)],
              c |-> h.c, mag |-> h.mag, pos |-> h.pos, skib |-> h.skib]
@@ -63,6 +63,8 @@ T_Write == IsEvent("Write") /\ MB /\ Ev.m \in Members
 \* Ev.m is the entry whose BYTES reached the extractor (every entry is filled with its own byte value)
 T_ExtractMember == IsEvent("Extract") /\ MB /\ Ev.m \in Members /\ Ev.n = Size(Ev.m)
                    /\ \E m \in Members : io.got[m] = Ev.m /\ MB_Extract(m)
+\* an entry without data stream (7z empty file / anti item) may reach an extractor with 0 bytes: DON'T-CARE
+T_ExtractEmpty == IsEvent("Extract") /\ MB /\ Ev.n = 0 /\ (\E m \in Members : MType(m) \in {"empty", "anti"}) /\ Same
 T_EndMembers == IsEvent("End") /\ MB /\ Ev.outcome = "Ok" /\ MB_Finish
 (* ---- cost ---- *)
 ObservedExceeds(e) == e.peak > BoundKiB(scn.skib) \/ e.outcome \in {"MemoryError", "CpuBudget", "Killed"}
@@ -80,16 +82,16 @@ SilentStep == /\ Silent
               /\ \/ RF_Disabled \/ RF_Pass \/ SZ_Pass \/ RF_NoStat
                  \/ \E m \in Members : MB_Skip(m) \/ MB_Drop(m) \/ MB7_Filter(m)
                  \/ \E m \in Members : \E e \in Members : MB7_Read(m, e)
-                 \/ MB7_Filtered \/ MB7_Unpacked
+                 \/ MB7_Filtered \/ MB7_Unpacked \/ MB_Configure
                  \/ CB_OdsCell \/ CB_OdsRowEnd \/ CB_OdsSheetEnd \/ CB_Expand \/ CB_Finish
 
 CheckInv == Deviations = {}
-Invs == Inv_NoLoadBeforeGuard /\ Inv_Boundary /\ Inv_SkippedNeverDecompressed /\ Inv_MemberBoundary
+Invs == Inv_NoLoadBeforeGuard /\ Inv_Boundary /\ Inv_SkippedNeverDecompressed /\ Inv_MemberBoundary /\ Inv_ConfigMeaning
 
 TraceInit == tid \in 1..Len(Traces) /\ l = 1 /\ InitWith(ScnOf(Traces[tid].hdr))
 TraceNext == /\ \/ T_Stat \/ T_Open \/ T_Load \/ T_ExtractFile \/ T_EndFile
                 \/ T_Size \/ T_Parse \/ T_End7z
-                \/ T_Decompress \/ T_Folder \/ T_Write \/ T_ExtractMember \/ T_EndMembers
+                \/ T_Decompress \/ T_Folder \/ T_Write \/ T_ExtractMember \/ T_ExtractEmpty \/ T_EndMembers
                 \/ T_Cost
                 \/ SilentStep
              /\ (CheckInv => Invs')
